@@ -55,6 +55,9 @@ class Put(Event, ContextManager['Put'], Generic[ResourceType]):
         """
         if not self.triggered:
             self.resource.put_queue.remove(self)
+            # The requests queued behind the cancelled one may be
+            # satisfiable now; do not leave them stranded.
+            self.resource._trigger_put(None)
 
 
 class Get(Event, ContextManager['Get'], Generic[ResourceType]):
@@ -93,6 +96,9 @@ class Get(Event, ContextManager['Get'], Generic[ResourceType]):
         """
         if not self.triggered:
             self.resource.get_queue.remove(self)
+            # The requests queued behind the cancelled one may be
+            # satisfiable now; do not leave them stranded.
+            self.resource._trigger_get(None)
 
 
 PutType = TypeVar('PutType', bound=Put)
